@@ -95,6 +95,17 @@ impl<'ctx> PriceRepositoryBuilder<'ctx> {
         price_of: SingleAmount<'ctx>,
         price_with: SingleAmount<'ctx>,
     ) {
+        if price_of.value.is_zero() {
+            // No rate can be derived from zero amount,
+            // e.g. the opposite direction of `P 2024/01/01 X 0 Y`, or `0 X @@ 5 Y`.
+            log::warn!(
+                "price of {} in {} on {} is ignored, as it is zero",
+                price_of.commodity.as_str(),
+                price_with.commodity.as_str(),
+                date
+            );
+            return;
+        }
         let Entry(stored_source, entries): &mut _ = self
             .records
             .entry(price_with.commodity)
